@@ -193,6 +193,9 @@ B("C14", "np-random-normal", "hvsr_spatial.py", "return rng.normal(mean, stddev,
 B("C14", "index-outside-test", "hvsr_spatial.py", "                passing_points.append([x, y])\n                passing_indices.append(index)\n            else:", "                passing_points.append([x, y])\n            else:")
 B("C14", "reseed", "hvsr_spatial.py", "    if rng is None:\n        rng = default_rng()", "    rng = default_rng(1824)")
 
+B("C14", "closing-distance-small", "hvsr_spatial.py", "def _bounded_voronoi(self, mask, radius=1E6):", "def _bounded_voronoi(self, mask, radius=1E3):")
+B("C14", "closing-distance-fallback", "hvsr_spatial.py", "regions, vertices = self._voronoi_finite_polygons_2d(vor,\n                                                             radius=radius)", "regions, vertices = self._voronoi_finite_polygons_2d(vor)")
+N("C14", "closing-distance-larger", "hvsr_spatial.py", "def _bounded_voronoi(self, mask, radius=1E6):", "def _bounded_voronoi(self, mask, radius=1E7):")
 # ----------------------------------------------------------------------------- C15
 B("C15", "omit-attr", "settings.py", '        self.attrs.extend(["method_to_combine_horizontals",\n                           "azimuth_in_degrees",\n                           ])', '        self.attrs.extend(["method_to_combine_horizontals",\n                           ])')
 B("C15", "do-not-forward-fft-settings", "settings.py", "                         smoothing=smoothing,\n                         fft_settings=fft_settings,\n                         handle_dissimilar_time_steps_by=handle_dissimilar_time_steps_by,\n                         )\n        self.attrs.extend([\"processing_method\"])",
